@@ -7,6 +7,8 @@ type nat =
 | O
 | S of nat
 
+val option_map : ('a1 -> 'a2) -> 'a1 option -> 'a2 option
+
 type ('a, 'b) sum =
 | Inl of 'a
 | Inr of 'b
@@ -76,11 +78,19 @@ type z =
 
 module Nat :
  sig
+  val sub : nat -> nat -> nat
+
   val eqb : nat -> nat -> bool
 
   val leb : nat -> nat -> bool
 
   val ltb : nat -> nat -> bool
+
+  val divmod : nat -> nat -> nat -> nat -> nat * nat
+
+  val div : nat -> nat -> nat
+
+  val modulo : nat -> nat -> nat
 
   val div2 : nat -> nat
  end
@@ -155,6 +165,8 @@ module N :
 
   val mul : n -> n -> n
 
+  val compare : n -> n -> comparison
+
   val to_nat : n -> nat
 
   val of_nat : nat -> n
@@ -177,6 +189,8 @@ val n_of_digits : bool list -> n
 val n_of_ascii : char -> n
 
 val nat_of_ascii : char -> nat
+
+val compare0 : char -> char -> comparison
 
 val hd : 'a1 -> 'a1 list -> 'a1
 
@@ -267,6 +281,8 @@ module Z :
 
 val zeq_bool : z -> z -> bool
 
+val compare1 : string -> string -> comparison
+
 val length0 : string -> nat
 
 
@@ -307,6 +323,7 @@ type exn =
 | UsageError
 | ElectionError
 | ElectionProfileError
+| ArithmeticValuesError
 
 type 'a res =
 | Ok of 'a
@@ -377,6 +394,8 @@ val zeros : nat -> string
 val pad0 : z -> z -> string
 
 val render_fmt : z -> z -> fmt_args -> string
+
+val digit_of : char -> z option
 
 val qfloor : q -> z
 
@@ -1565,6 +1584,391 @@ val show_render :
   arith -> arith_meta -> config -> header -> bool -> outcome -> string
 
 val run_render : tok list -> string
+
+type oval =
+| VNone
+| VBool of bool
+| VInt of z
+| VStr of string
+
+val oval_num : oval -> z option
+
+val oval_eqb : oval -> oval -> bool
+
+val is_none : oval -> bool
+
+val py_str : oval -> string
+
+val is_digit0 : char -> bool
+
+val nl_char : char
+
+val digits_value : string -> z -> z
+
+val digits_then_end : string -> bool -> bool
+
+val matches_digits : string -> bool
+
+val normalize_val : oval -> oval
+
+val is_space0 : char -> bool
+
+val lstrip : string -> string
+
+val rstrip : string -> string
+
+val int_body : string -> z -> bool -> z option
+
+val py_int_str : string -> z option
+
+val py_int0 : oval -> z res
+
+val py_floordiv_int : oval -> z -> oval res
+
+val py_mul2_floordiv3 : oval -> oval res
+
+val str_endswith_aux : string -> string -> nat -> bool
+
+val str_endswith : string -> string -> bool
+
+val lower_char : char -> char
+
+val str_lower : string -> string
+
+val split_eq : string -> string -> string list
+
+val insert_sorted : string -> string list -> string list
+
+val sort_set : string list -> string list
+
+type 'v dict = (string * 'v) list
+
+val dget : string -> 'a1 dict -> 'a1 option
+
+val dmem : string -> 'a1 dict -> bool
+
+val dset : string -> 'a1 -> 'a1 dict -> 'a1 dict
+
+val dsetdefault : string -> 'a1 -> 'a1 dict -> 'a1 dict
+
+val dkeys : 'a1 dict -> string list
+
+val dupdate : 'a1 dict -> 'a1 dict -> 'a1 dict
+
+val dget_or : string -> 'a1 dict -> 'a1 -> 'a1
+
+val dict_of_list : (string * 'a1) list -> 'a1 dict
+
+type store = { o_cmd : oval dict; o_file : oval dict; o_default : oval dict;
+               o_force : oval dict; o_allowed : oval list dict }
+
+val set_cmd : store -> oval dict -> store
+
+val set_file : store -> oval dict -> store
+
+val set_default : store -> oval dict -> store
+
+val set_force : store -> oval dict -> store
+
+val set_allowed : store -> oval list dict -> store
+
+val normalize_dict : oval dict -> oval dict
+
+val new_options : oval dict -> store
+
+val update1 : store -> string -> oval -> bool -> store
+
+val update_dict : store -> oval dict -> bool -> store
+
+val getopt : store -> string -> oval
+
+val setopt_store : store -> string -> oval -> bool -> store
+
+val setopt : string -> oval -> bool -> oval list -> store -> oval res * store
+
+val str_in : string -> string list -> bool
+
+val unused : store -> string list
+
+val overrides : store -> string list
+
+type orecord = { rec_cmd : oval dict; rec_file : oval dict;
+                 rec_default : oval dict; rec_force : oval dict;
+                 rec_allowed : oval list dict; rec_options : oval dict }
+
+val record : store -> orecord
+
+val arithmetic_names : string list
+
+val rule_names : string list
+
+val str_truthy : string -> bool
+
+val parse_step :
+  (oval dict * string option) -> string -> (oval dict * string option) res
+
+val parse_loop : string list -> (oval dict * string option) -> oval dict res
+
+val parse0 : string list -> oval dict res
+
+type ('s, 'a) sM = 's -> 'a res * 's
+
+val sret : 'a2 -> ('a1, 'a2) sM
+
+val sbind : ('a1, 'a2) sM -> ('a2 -> ('a1, 'a3) sM) -> ('a1, 'a3) sM
+
+val slift : 'a2 res -> ('a1, 'a2) sM
+
+val sget : ('a1 -> 'a2) -> ('a1, 'a2) sM
+
+type ruleparams = { rp_name : oval option; rp_integer_quota : oval option;
+                    rp_defeat_batch : oval option; rp_warren : oval option;
+                    rp_omega10 : oval option }
+
+type rulecls =
+| KWigm
+| KWigmPrf
+| KCfer
+| KScotland
+| KMpls
+| KMeek
+| KMeekPrf
+| KQpq
+
+val rule_by_name : string -> rulecls option
+
+val getopt_m : string -> (store, oval) sM
+
+val endswith_batch : oval -> oval res
+
+val vs : string -> oval
+
+val wigm_options : (store, ruleparams) sM
+
+val prf_options : z -> (store, ruleparams) sM
+
+val statute_fixed_options : string -> z -> (store, ruleparams) sM
+
+val meek_options : (store, ruleparams) sM
+
+val meek_prf_options : (store, ruleparams) sM
+
+val qpq_options : (store, ruleparams) sM
+
+val rule_options : rulecls -> (store, ruleparams) sM
+
+type acls =
+| AFixed
+| AGuarded
+| ARational
+
+val arithmetic_dispatch : oval -> acls res
+
+type field =
+| FxName
+| FxInfo
+| FxEpsilon
+| FxPrecision
+| FxDisplay
+| FxScale
+| FxDfmt
+| FxScaled
+| FxScaledd
+| FxScaledr
+| GdPrecision
+| GdGuard
+| GdDisplay
+| GdScale
+| GdScalep
+| GdScaleg
+| GdScaled
+| GdScaledd
+| GdScaledr
+| GdScaledg
+| GdGeps
+| GdMaxDiff
+| GdMinDiff
+| GdDfmt
+| GdInfo
+| GdQuasiExact
+| GdExact
+| GdEpsilon
+| RtDp
+| RtDps
+| RtDpr
+| RtDfmt
+
+val all_fields : field list
+
+val field_idx : field -> z
+
+val field_eqb : field -> field -> bool
+
+type fv =
+| FZ of z
+| FS of string
+| FB of bool
+| FO of oval
+| FFloat
+
+type gstate = field -> fv option
+
+val g_init : gstate
+
+val gset : field -> fv -> gstate -> gstate
+
+type wlog = (field * fv) list
+
+val apply_log : wlog -> gstate -> gstate
+
+val getZ : gstate -> field -> z
+
+val getS : gstate -> field -> string
+
+val getB : gstate -> field -> bool
+
+type 'a wM = store -> ('a res * store) * wlog
+
+val wret : 'a1 -> 'a1 wM
+
+val wraise : exn -> 'a1 wM
+
+val wbind : 'a1 wM -> ('a1 -> 'a2 wM) -> 'a2 wM
+
+val w_op : (store, 'a1) sM -> 'a1 wM
+
+val wlift : 'a1 res -> 'a1 wM
+
+val wr : field -> fv -> unit wM
+
+val wtell : wlog -> unit wM
+
+val wwhen_raise : bool -> exn -> unit wM
+
+type world = store * gstate
+
+val run_w : 'a1 wM -> world -> 'a1 res * world
+
+val usage_int : oval -> z res
+
+val fixed_tail : string -> z -> z -> wlog
+
+val initialize_fixed : unit wM
+
+val checked_int_attr : field -> oval -> z wM
+
+val guarded_tail : z -> z -> z -> wlog
+
+val initialize_guarded : unit wM
+
+val pow10_oval : oval -> fv res
+
+val initialize_rational : unit wM
+
+val arithmetic_class : acls wM
+
+val election_setup_w : ((rulecls * ruleparams) * acls) wM
+
+val election_setup : world -> ((rulecls * ruleparams) * acls) res * world
+
+val fixed_cls_of : gstate -> fixed_cls
+
+val guarded_cls_of : gstate -> guarded_cls
+
+val is_fx : field -> bool
+
+val is_gd : field -> bool
+
+val is_rt : field -> bool
+
+val reads : acls -> gstate -> field -> bool
+
+val hex_digit : nat -> char
+
+val hex_of : string -> string
+
+val show_oval : oval -> string
+
+val show_ooval : oval option -> string
+
+val join0 : string -> string list -> string
+
+val show_dict : ('a1 -> string) -> 'a1 dict -> string
+
+val show_tuple : oval list -> string
+
+val lf1 : string
+
+val known_keys : string list
+
+val show_store : store -> string
+
+val field_name : field -> string
+
+val body_default : field -> string
+
+val show_fv : field -> fv -> string
+
+val show_field : gstate -> field -> string
+
+val acls_name : acls -> string
+
+val rulecls_name : rulecls -> string
+
+val showb01 : bool -> string
+
+val show_arith : acls -> gstate -> string
+
+val show_resZ_o : z res -> string
+
+val show_probe : acls -> gstate -> (z * z) -> string
+
+val show_report : acls -> gstate -> string
+
+val show_params : rulecls -> ruleparams -> string
+
+val rd_value : tok list -> (oval * tok list) option
+
+val rd_n :
+  (tok list -> ('a1 * tok list) option) -> nat -> tok list -> ('a1 list * tok
+  list) option
+
+val rd_counted :
+  (tok list -> ('a1 * tok list) option) -> tok list -> ('a1 list * tok list)
+  option
+
+val rd_kv : tok list -> ((string * oval) * tok list) option
+
+val rd_dict : tok list -> (oval dict * tok list) option
+
+val rd_s : tok list -> (string * tok list) option
+
+val rd_nd : tok list -> ((z * z) * tok list) option
+
+type filespec =
+| FDict of oval dict
+| FStrs of string list
+
+val rd_config : tok list -> ((oval dict * filespec) * tok list) option
+
+val build_store : (oval dict * filespec) -> store res * store
+
+val run_one :
+  (oval dict * filespec) -> gstate -> (((rulecls * ruleparams) * acls)
+  res * store) * gstate
+
+val show_hist_outcome : nat -> ((rulecls * ruleparams) * acls) res -> string
+
+val run_hist :
+  nat -> (oval dict * filespec) list -> gstate -> string -> string * gstate
+
+val run_setup :
+  (z * z) list -> (oval dict * filespec) list -> (oval dict * filespec) ->
+  string
+
+val show_res_dict : oval dict res -> string
+
+val run_options : tok list -> string
 
 val show_resZ : z res -> string
 
